@@ -583,7 +583,7 @@ func drawSource0(t *rapid.T, s *rt.Section, cfg vmx.Cfg) (src, kind string) {
 		o.CoC, o.WoD, o.Fate, o.DC = cfg.CoC, cfg.WoD, cfg.Fate, cfg.DC
 	}
 	o.MaxStmts, o.MaxDepth = 5, 3
-	o.SingleKeyDicts = true // the lazy section compares values that may be text printed from a dict
+	o.SingleKeyDicts = false // since fix 6269628 a dict prints and lists its entries in key order
 	o.Avoid = s.Avoid
 	g := gen.NewG(t, o, nil)
 	switch rapid.IntRange(0, 13).Draw(t, "srcKind") {
